@@ -321,6 +321,21 @@ def run_tlc(
     return TlcResult(p.returncode, out, wall)
 
 
+def run_apalache(module: str, args: Sequence[str], *, name: str, timeout: int = 900) -> Tuple[bool, str, float]:
+    """apalache-mc check <args> SPEC/<module>.tla; returns (ok, output tail, wall)."""
+    sdir = os.path.join(scratch(), name)
+    os.makedirs(sdir, exist_ok=True)
+    cmd = ["apalache-mc", "check", f"--out-dir={sdir}", *args, os.path.join(SPEC, f"{module}.tla")]
+    e = dict(os.environ, JVM_ARGS=f"-Djava.io.tmpdir={sdir} -Xmx4g")
+    t0 = time.time()
+    try:
+        p = subprocess.run(cmd, cwd=sdir, env=e, capture_output=True, text=True, timeout=timeout)
+    except (subprocess.TimeoutExpired, FileNotFoundError) as err:
+        raise MachineryError(f"apalache-mc failed to run on {module} ({name}): {err}") from err
+    out = p.stdout + p.stderr
+    return ("EXITCODE: OK" in out and "The outcome is: NoError" in out), out[-1500:], time.time() - t0
+
+
 def require_ok(res: TlcResult, what: str) -> TlcResult:
     if not res.ok:
         tail = "\n".join(res.out.splitlines()[-40:])
